@@ -16,10 +16,10 @@ use bump_scope::traits::{
 };
 use bump_scope::{BaseAllocator, Bump, BumpBox, BumpScope};
 
-use crate::api::{Al32, StatsSnap, snap_stats, text, val_bytes};
-use crate::arena::{Rec, pick};
-use crate::runner::{CaseReport, CaseResult, Engine, Failure, panic_message};
-use crate::talloc::{FaultPlan, GrantPolicy, Handle, Z, with_ctx};
+use bsv_core::common::{Al32, StatsSnap, snap_stats, text, val_bytes};
+use bsv_core::common::{Rec, pick};
+use bsv_core::runner::{CaseReport, CaseResult, Engine, Failure, panic_message};
+use bsv_core::talloc::{FaultPlan, GrantPolicy, Handle, Z, with_ctx};
 
 #[derive(Clone, Copy, Debug, PartialEq, Eq)]
 pub enum Ty {
@@ -548,7 +548,7 @@ where
             l.push('\n');
         }
         st.ops += 1;
-        st.hash ^= crate::runner::fnv(what.as_bytes());
+        st.hash ^= bsv_core::runner::fnv(what.as_bytes());
         st.hash = st.hash.wrapping_mul(0x100000001b3);
         if p != q {
             st.kinds_differ = true;
